@@ -310,7 +310,20 @@ func c22MPEG4Video(t *testing.T, r *vmon.Run, rng *rand.Rand, si int) {
 	strm, ss, medi := verifStream(t, f, 1450, false)
 	defer strm.Close()
 	n := 5 + rng.IntN(30)
+	// what was delivered earlier (and what the publisher handed in) must stay as it was: a reader may still hold it
+	type kept struct {
+		k         int
+		live, was []byte
+		what      string
+	}
+	var history []kept
 	for k := 0; k < n; k++ {
+		for _, h := range history {
+			if !bytes.Equal(h.live, h.was) {
+				r.Violation("mpeg4video-earlier-unit-altered", fmt.Sprintf("MPEG-4 Video: after frame #%d was written, the %s of frame #%d reads %x, it was %x when it was delivered", k-1, h.what, h.k, h.live, h.was), nil)
+				return
+			}
+		}
 		body := vmon.RandBytes(rng, 2+rng.IntN(30))
 		for i := range body {
 			if body[i] == 0 {
@@ -358,8 +371,14 @@ func c22MPEG4Video(t *testing.T, r *vmon.Run, rng *rand.Rand, si int) {
 		} else {
 			want = stripped
 		}
-		u := &unit.Unit{PTS: int64(k) * 3000, Payload: unit.PayloadMPEG4Video(append([]byte(nil), frame...))}
+		in := append([]byte(nil), frame...)
+		u := &unit.Unit{PTS: int64(k) * 3000, Payload: unit.PayloadMPEG4Video(in)}
 		err := verifWrite(ss, medi, f, u)
+		history = append(history, kept{k, in, append([]byte(nil), in...), "publisher's buffer"})
+		if err == nil && !u.NilPayload() {
+			d := []byte(u.Payload.(unit.PayloadMPEG4Video))
+			history = append(history, kept{k, d, append([]byte(nil), d...), "delivered payload"})
+		}
 		kk := ""
 		if hasGOV || hasConf {
 			kk = fmt.Sprintf("m4v|%d|%d", si, k)
